@@ -4,6 +4,7 @@ import (
 	"fmt"
 	"strings"
 	"sync"
+	"time"
 
 	"aaverif/internal/plan"
 	"aaverif/internal/ref"
@@ -179,6 +180,45 @@ func checkC02(e *Env) {
 	// the concurrent flavour of this monitor (C12 is the full treatment)
 	concCalls := e.concurrentSmoke(drv, "C02", e.smokePool("C02", "chk"), e.pick(2, 12), e.pick(300, 1500), e.smokeValidAccepted())
 
+	// goroutines that each generate from their own window of ONE caller-owned buffer (windows of
+	// different goroutines are adjacent) and validate what they got, again and again
+	slabCalls := 0
+	parallel(e.pick(6, 40), max(1, e.Workers/4), func(pi int) {
+		r := rng.New(e.Seed, "C02-slab-"+itoa(pi))
+		G := []int{8, 4, 16}[pi%3]
+		c := &plan.Conc{GoMaxProcs: []int{16, 2, 4, 3}[pi%4], Loops: e.pick(300, 1500)}
+		c.Workers = make([][]plan.Op, G)
+		off := 0
+		for k := 0; k < 4; k++ {
+			for w := 0; w < G; w++ {
+				size := ref.EntSizes[(k+w+pi)%5]
+				c.Workers[w] = append(c.Workers[w], plan.Op{I: k, Fn: "encchk", L: int64((pi + w) % ref.NLang), E: hx(r.Bytes(size)), SlabOff: off + 1})
+				off += size
+			}
+		}
+		c.Slab = off
+		cr := e.RunConc(drv, c, "c02-slab-"+itoa(pi), nil, 10*time.Minute)
+		if v, inc := cr.hang(); v != "" || inc != "" || cr.Trailer == nil {
+			return // calls that do not return are C12's and C14's business
+		}
+		for i := range cr.Results {
+			rr := &cr.Results[i]
+			if rr.Panic != "" || rr.Err != nil || rr.Out == "" {
+				continue // nothing was returned
+			}
+			n := max(1, rr.Agg)
+			if rr.B == nil || !*rr.B {
+				op := c.Workers[rr.G][rr.I]
+				e.Violate(&Violation{What: fmt.Sprintf("%d goroutines generating from adjacent windows of one caller-owned buffer (GOMAXPROCS %d): in %d of its calls the mnemonic NewMnemonicByEntropy returned to worker %d is rejected under the same language (%s): %s", G, c.GoMaxProcs, n, rr.G, ref.Names[op.L], preview(string(unhex(rr.Out)))),
+					Conc: c, Expected: "CheckMnemonic == nil and IsMnemonicValid == true", Observed: rr})
+				return
+			}
+			mu.Lock()
+			slabCalls += n
+			mu.Unlock()
+		}
+	})
+
 	possible := 0
 	for range ref.Names {
 		possible += 23 * 2048
@@ -203,8 +243,9 @@ func checkC02(e *Env) {
 		"own_output_differs_from_reference":         ownDiffersFromRef.Map(),
 		"generator_calls_that_returned_no_mnemonic": notReturned.Map(),
 		"calls_inside_histories":                    histCalls,
-		"children":                                  stats.Children,
-		"child_deaths":                              stats.Deaths,
+		"generate_and_check_pairs_from_adjacent_windows_of_one_buffer_under_concurrency": slabCalls,
+		"children":     stats.Children,
+		"child_deaths": stats.Deaths,
 	}, []string{
 		"golden lists are the canonical lists; crypto/sha256; the harness reference encoder",
 		"the default randomness source works in this sandbox",
